@@ -48,6 +48,10 @@ type Opts struct {
 	Disk *simdb.Disk // reuse an existing disk (restart); nil creates a fresh one
 	// EditToml edits the configuration text before parsing.
 	EditToml func(s string) string
+	// MempoolTx makes the stub mempool answer EventCheckTxsExist and
+	// EventTxListByHash like a pool that holds the transactions it returns
+	// (nil function or nil result: not pooled).
+	MempoolTx func(txHash []byte) *types.Transaction
 	// EditCfg edits the parsed configuration.
 	EditCfg func(cfg *types.Chain33Config)
 	// StubMempool replaces the real mempool by a sink that returns no
@@ -183,7 +187,27 @@ func New(o Opts) *Node {
 				msg.Reply(n.Client.NewMessage("consensus", types.EventReplyTxList, &types.ReplyTxList{}))
 			case types.EventCheckTxsExist:
 				req := msg.GetData().(*types.ReqCheckTxsExist)
-				msg.Reply(n.Client.NewMessage("", 0, &types.ReplyCheckTxsExist{ExistFlags: make([]bool, len(req.TxHashes))}))
+				rep := &types.ReplyCheckTxsExist{ExistFlags: make([]bool, len(req.TxHashes))}
+				if o.MempoolTx != nil {
+					for i, h := range req.TxHashes {
+						if o.MempoolTx(h) != nil {
+							rep.ExistFlags[i] = true
+							rep.ExistCount++
+						}
+					}
+				}
+				msg.Reply(n.Client.NewMessage("", 0, rep))
+			case types.EventTxListByHash:
+				req := msg.GetData().(*types.ReqTxHashList)
+				rep := &types.ReplyTxList{}
+				for _, h := range req.Hashes {
+					var tx *types.Transaction
+					if o.MempoolTx != nil && !req.IsShortHash {
+						tx = o.MempoolTx([]byte(h))
+					}
+					rep.Txs = append(rep.Txs, tx)
+				}
+				msg.Reply(n.Client.NewMessage("", types.EventReplyTxList, rep))
 			case types.EventGetMempoolSize:
 				msg.Reply(n.Client.NewMessage("", 0, &types.MempoolSize{}))
 			case types.EventAddBlock, types.EventDelBlock:
